@@ -59,9 +59,15 @@ def jobs(tier):
     return js
 
 
+def eq_jobs(tier):
+    return [{"id": "O6.filter-equality", "func": "VerifH_C08_FilterEqual", "conf": {}, "_obligation": "O6", "_covers": ["compared"], "map_order": True, "unwind": 40},
+            {"id": "twin.filter-equality", "func": "VerifH_C08_FilterEqualReach", "conf": {}, "_obligation": "vacuity", "_expect": "twin", "_covers": ["end"]}]
+
+
 PROPERTY = {
     "id": "C08",
-    "suites": [{"name": "planner", "pkg": "internal/planner", "files": ["zz_verif_c08.go", "zz_verif_c08agg.go"], "jobs": jobs, "unwind": 16}],
+    "suites": [{"name": "planner", "pkg": "internal/planner", "files": ["zz_verif_c08.go", "zz_verif_c08agg.go"], "jobs": jobs, "unwind": 16},
+               {"name": "mapper", "pkg": "internal/planner/mapper", "files": ["zz_verif_c08eq.go"], "jobs": eq_jobs, "unwind": 40}],
     "bounds": {"quick": {"sort keys": "<=2", "rows sorted": 3, "limit rows": "<=3", "strings": "<=2 bytes", "numeric": "full width"},
                "thorough": {"sort keys": "<=2 (all kind pairs)", "rows sorted": "3-4", "limit rows": "<=5", "strings": "<=2 bytes", "numeric": "full width"}},
     "assumptions": ["values of one field share one kind (schema typing)", "no NaN (cannot enter through JSON/GraphQL)",
